@@ -431,8 +431,12 @@ def processLine (line : String) (heavy : Bool := true) : String :=
     match processCase j heavy with
     | .error e =>
       if e.startsWith "nonfinite:" then
-        (Json.mkObj [("id", Json.str id), ("v", Json.mkObj [("C04", Json.str s!"fail:non-finite output coordinate {e}"),
-          ("C05", Json.str s!"fail:non-finite output coordinate {e}")])]).compress
+        -- a value that is not a number: for the root finder "nothing that is not a root" fails, for the geometry routines the
+        -- path / curve is not inside anything, for a layout it is a coordinate (C04/C05)
+        let op := (j.getObjVal? "op").toOption.bind (·.getStr?.toOption) |>.getD ""
+        let keys := if op == "solve" then ["C20roots"] else if op == "shortest" then ["C19"] else if op == "fitspline" then ["C20"]
+          else ["C04", "C05"]
+        (Json.mkObj [("id", Json.str id), ("v", Json.mkObj (keys.map fun k => (k, Json.str s!"fail:non-finite output value {e}")))]).compress
       else (Json.mkObj [("id", Json.str id), ("error", Json.str e)]).compress
     | .ok v => (Json.mkObj [("id", Json.str id), ("v", Json.mkObj ((mergeItems v.items).map fun (k, s) => (k, Json.str s)))]).compress
 
